@@ -16,6 +16,7 @@
 #include <stdint.h>
 #include <time.h>
 #include <sys/time.h>
+#include <sys/syscall.h>
 
 static volatile int64_t offset_ns = 0;
 static int (*real_clock_gettime)(clockid_t, struct timespec *) = 0;
@@ -117,103 +118,175 @@ int pthread_create(pthread_t *thread, const pthread_attr_t *attr, void *(*start)
 
 
 /* ------------------------------------------------------------------------------------------
- * File-system seam (observation only). a5-rs touches no file today; a change that starts to
- * persist something (an on-disk cache) does. Every open that can create or modify a file is
- * appended to the log named by A5SIM_FS_LOG, so that the cold-world engine knows which files a
- * process left behind and can damage them (torn / lost / corrupted write) before the next
- * process starts. The call itself is passed through untouched. */
+ * File-system seam. a5-rs touches no file today; a change that starts to persist something (an
+ * on-disk cache) does. Observation: every open that can create or modify a file is appended to
+ * the log named by A5SIM_FS_LOG, so that the cold-world engine knows which files a process left
+ * behind and can damage them (torn / lost / corrupted write) before the next process starts.
+ * Faults: descriptors of files opened for writing UNDER THE DIRECTORY NAMED BY A5SIM_FS_ROOT (the
+ * private temp directory the simulator gave the process; the simulator itself writes nothing
+ * there) are tracked until they are closed, and write / fsync / rename on them can be made to
+ * fail, seeded. Nothing else is ever touched. */
 static int (*real_open)(const char *, int, ...) = 0;
 static int (*real_open64)(const char *, int, ...) = 0;
 static int (*real_openat)(int, const char *, int, ...) = 0;
+static int (*real_close)(int) = 0;
 
 #define A5SIM_MAX_TRACKED 64
 static volatile int tracked_fds[A5SIM_MAX_TRACKED];
-static volatile int tracked_n = 0;
 
 static void a5sim_track_fd(int fd) {
     if (fd < 0) return;
-    int i = __atomic_fetch_add(&tracked_n, 1, __ATOMIC_SEQ_CST);
-    tracked_fds[i % A5SIM_MAX_TRACKED] = fd + 1;
+    for (int i = 0; i < A5SIM_MAX_TRACKED; i++) {
+        int expect = 0;
+        if (__atomic_compare_exchange_n(&tracked_fds[i], &expect, fd + 1, 0, __ATOMIC_SEQ_CST, __ATOMIC_SEQ_CST)) return;
+    }
+}
+
+static void a5sim_untrack_fd(int fd) {
+    for (int i = 0; i < A5SIM_MAX_TRACKED; i++) {
+        int expect = fd + 1;
+        __atomic_compare_exchange_n(&tracked_fds[i], &expect, 0, 0, __ATOMIC_SEQ_CST, __ATOMIC_SEQ_CST);
+    }
 }
 
 static int a5sim_is_tracked(int fd) {
-    int n = __atomic_load_n(&tracked_n, __ATOMIC_SEQ_CST);
-    if (n > A5SIM_MAX_TRACKED) n = A5SIM_MAX_TRACKED;
-    for (int i = 0; i < n; i++)
+    for (int i = 0; i < A5SIM_MAX_TRACKED; i++)
         if (tracked_fds[i] == fd + 1) return 1;
     return 0;
 }
 
-/* returns 1 if the open is one that can create or modify a file and was logged */
+static int a5sim_under_root(const char *path) {
+    const char *root = getenv("A5SIM_FS_ROOT");
+    if (!path || !root || !*root) return 0;
+    size_t n = strlen(root);
+    return strncmp(path, root, n) == 0 && (path[n] == '/' || path[n] == 0);
+}
+
+/* returns 1 if the open can create or modify a file under the fault root (=> track the fd) */
 static int a5sim_log_path(const char *path, int flags) {
     if (!path || !(flags & (O_WRONLY | O_RDWR | O_CREAT | O_TRUNC | O_APPEND))) return 0;
     const char *log = getenv("A5SIM_FS_LOG");
-    if (!log || !*log || strcmp(path, log) == 0) return 0;
-    if (!real_open) real_open = (int (*)(const char *, int, ...))dlsym(RTLD_NEXT, "open");
-    int fd = real_open(log, O_WRONLY | O_CREAT | O_APPEND, 0644);
-    if (fd < 0) return 1;
-    size_t n = strlen(path);
-    if (n < 4000) {
-        char buf[4096];
-        memcpy(buf, path, n);
-        buf[n] = '\n';
-        ssize_t w = write(fd, buf, n + 1);
-        (void)w;
+    if (log && *log && strcmp(path, log) != 0) {
+        if (!real_open) real_open = (int (*)(const char *, int, ...))dlsym(RTLD_NEXT, "open");
+        if (!real_close) real_close = (int (*)(int))dlsym(RTLD_NEXT, "close");
+        int fd = real_open(log, O_WRONLY | O_CREAT | O_APPEND, 0644);
+        if (fd >= 0) {
+            size_t n = strlen(path);
+            if (n < 4000) {
+                char buf[4096];
+                memcpy(buf, path, n);
+                buf[n] = '\n';
+                ssize_t w = syscall(SYS_write, fd, buf, n + 1);
+                (void)w;
+            }
+            real_close(fd);
+        }
     }
-    close(fd);
-    return 1;
+    return a5sim_under_root(path);
 }
 
 int open(const char *path, int flags, ...) {
     mode_t mode = 0;
-    if (flags & O_CREAT) { va_list ap; va_start(ap, flags); mode = (mode_t)va_arg(ap, int); va_end(ap); }
+    if ((flags & O_CREAT) || (flags & O_TMPFILE) == O_TMPFILE) { va_list ap; va_start(ap, flags); mode = (mode_t)va_arg(ap, int); va_end(ap); }
     if (!real_open) real_open = (int (*)(const char *, int, ...))dlsym(RTLD_NEXT, "open");
-    int logged = a5sim_log_path(path, flags);
+    int track = a5sim_log_path(path, flags);
     int fd = real_open(path, flags, mode);
-    if (logged) a5sim_track_fd(fd);
+    if (track) a5sim_track_fd(fd);
     return fd;
 }
 
 int open64(const char *path, int flags, ...) {
     mode_t mode = 0;
-    if (flags & O_CREAT) { va_list ap; va_start(ap, flags); mode = (mode_t)va_arg(ap, int); va_end(ap); }
+    if ((flags & O_CREAT) || (flags & O_TMPFILE) == O_TMPFILE) { va_list ap; va_start(ap, flags); mode = (mode_t)va_arg(ap, int); va_end(ap); }
     if (!real_open64) real_open64 = (int (*)(const char *, int, ...))dlsym(RTLD_NEXT, "open64");
-    int logged = a5sim_log_path(path, flags);
+    int track = a5sim_log_path(path, flags);
     int fd = real_open64(path, flags, mode);
-    if (logged) a5sim_track_fd(fd);
+    if (track) a5sim_track_fd(fd);
     return fd;
 }
 
 int openat(int dirfd, const char *path, int flags, ...) {
     mode_t mode = 0;
-    if (flags & O_CREAT) { va_list ap; va_start(ap, flags); mode = (mode_t)va_arg(ap, int); va_end(ap); }
+    if ((flags & O_CREAT) || (flags & O_TMPFILE) == O_TMPFILE) { va_list ap; va_start(ap, flags); mode = (mode_t)va_arg(ap, int); va_end(ap); }
     if (!real_openat) real_openat = (int (*)(int, const char *, int, ...))dlsym(RTLD_NEXT, "openat");
-    int logged = (path && path[0] == '/') ? a5sim_log_path(path, flags) : 0;
+    int track = (path && path[0] == '/') ? a5sim_log_path(path, flags) : 0;
     int fd = real_openat(dirfd, path, flags, mode);
-    if (logged) a5sim_track_fd(fd);
+    if (track) a5sim_track_fd(fd);
     return fd;
 }
 
+int close(int fd) {
+    if (!real_close) real_close = (int (*)(int))dlsym(RTLD_NEXT, "close");
+    a5sim_untrack_fd(fd);
+    return real_close(fd);
+}
 
-/* Write faults on the files the library itself opened for writing (never on anything else):
- * with A5SIM_FS_FAULT=<seed> in the environment some write(2) calls on those descriptors are
- * cut short, or fail with ENOSPC (disk full) or EIO. Seeded, counted per process. */
+
+/* Write-path faults on the files the library itself opened for writing under the fault root:
+ * some write(2) calls are cut short or fail with ENOSPC (disk full) or EIO, some fsync /
+ * fdatasync calls fail with EIO, some rename(2) calls into or out of the root fail with ENOSPC
+ * (and do nothing). The seed comes from a5sim_fs_fault_set() (the history simulator sets it per
+ * scenario, which also restarts the call counter, so that a scenario replays in a fresh process)
+ * or from A5SIM_FS_FAULT in the environment (cold-world chains). Seed 0 = no faults. */
 static ssize_t (*real_write)(int, const void *, size_t) = 0;
-static volatile uint64_t write_calls = 0;
+static int (*real_fsync)(int) = 0;
+static int (*real_fdatasync)(int) = 0;
+static int (*real_rename)(const char *, const char *) = 0;
+static volatile uint64_t fault_calls = 0;
+static volatile uint64_t fault_seed = 0;
+static volatile int fault_seed_set = 0;
+static volatile uint64_t faults_fired = 0;
+
+void a5sim_fs_fault_set(uint64_t seed) {
+    __atomic_store_n(&fault_seed, seed, __ATOMIC_SEQ_CST);
+    __atomic_store_n(&fault_seed_set, 1, __ATOMIC_SEQ_CST);
+    __atomic_store_n(&fault_calls, 0, __ATOMIC_SEQ_CST);
+}
+uint64_t a5sim_fs_faults_fired(void) { return __atomic_load_n(&faults_fired, __ATOMIC_SEQ_CST); }
+
+/* 0 = no fault; otherwise a pseudo-random word for this call */
+static uint64_t a5sim_fault_word(void) {
+    uint64_t seed;
+    if (__atomic_load_n(&fault_seed_set, __ATOMIC_SEQ_CST)) seed = __atomic_load_n(&fault_seed, __ATOMIC_SEQ_CST);
+    else { const char *f = getenv("A5SIM_FS_FAULT"); seed = (f && *f) ? (uint64_t)strtoull(f, 0, 10) : 0; }
+    if (!seed) return 0;
+    uint64_t k = __atomic_fetch_add(&fault_calls, 1, __ATOMIC_SEQ_CST);
+    uint64_t z = seed + 0x9e3779b97f4a7c15ULL * (k + 1);
+    z = (z ^ (z >> 30)) * 0xbf58476d1ce4e5b9ULL;
+    z = (z ^ (z >> 27)) * 0x94d049bb133111ebULL;
+    z ^= z >> 31;
+    return z | (1ULL << 63);
+}
 
 ssize_t write(int fd, const void *buf, size_t n) {
     if (!real_write) real_write = (ssize_t (*)(int, const void *, size_t))dlsym(RTLD_NEXT, "write");
-    const char *f = a5sim_is_tracked(fd) ? getenv("A5SIM_FS_FAULT") : 0;
-    if (f && *f) {
-        uint64_t k = __atomic_fetch_add(&write_calls, 1, __ATOMIC_SEQ_CST);
-        uint64_t z = (uint64_t)strtoull(f, 0, 10) + 0x9e3779b97f4a7c15ULL * (k + 1);
-        z = (z ^ (z >> 30)) * 0xbf58476d1ce4e5b9ULL;
-        z = (z ^ (z >> 27)) * 0x94d049bb133111ebULL;
-        z ^= z >> 31;
+    uint64_t z = a5sim_is_tracked(fd) ? a5sim_fault_word() : 0;
+    if (z) {
         unsigned r = (unsigned)(z % 100);
-        if (r < 15 && n > 1) return real_write(fd, buf, 1 + (size_t)((z >> 8) % (n - 1))); /* short write */
-        if (r < 22) { errno = ENOSPC; return -1; }
-        if (r < 27) { errno = EIO; return -1; }
+        if (r < 15 && n > 1) { __atomic_fetch_add(&faults_fired, 1, __ATOMIC_SEQ_CST); return real_write(fd, buf, 1 + (size_t)((z >> 8) % (n - 1))); } /* short write */
+        if (r < 22) { __atomic_fetch_add(&faults_fired, 1, __ATOMIC_SEQ_CST); errno = ENOSPC; return -1; }
+        if (r < 27) { __atomic_fetch_add(&faults_fired, 1, __ATOMIC_SEQ_CST); errno = EIO; return -1; }
     }
     return real_write(fd, buf, n);
+}
+
+int fsync(int fd) {
+    if (!real_fsync) real_fsync = (int (*)(int))dlsym(RTLD_NEXT, "fsync");
+    uint64_t z = a5sim_is_tracked(fd) ? a5sim_fault_word() : 0;
+    if (z && z % 100 < 20) { __atomic_fetch_add(&faults_fired, 1, __ATOMIC_SEQ_CST); errno = EIO; return -1; }
+    return real_fsync(fd);
+}
+
+int fdatasync(int fd) {
+    if (!real_fdatasync) real_fdatasync = (int (*)(int))dlsym(RTLD_NEXT, "fdatasync");
+    uint64_t z = a5sim_is_tracked(fd) ? a5sim_fault_word() : 0;
+    if (z && z % 100 < 20) { __atomic_fetch_add(&faults_fired, 1, __ATOMIC_SEQ_CST); errno = EIO; return -1; }
+    return real_fdatasync(fd);
+}
+
+int rename(const char *from, const char *to) {
+    if (!real_rename) real_rename = (int (*)(const char *, const char *))dlsym(RTLD_NEXT, "rename");
+    uint64_t z = (a5sim_under_root(from) || a5sim_under_root(to)) ? a5sim_fault_word() : 0;
+    if (z && z % 100 < 15) { __atomic_fetch_add(&faults_fired, 1, __ATOMIC_SEQ_CST); errno = ENOSPC; return -1; }
+    return real_rename(from, to);
 }
